@@ -574,9 +574,10 @@ def _r4(chk, repo, dist):
             cn = call_name(rhs) if isinstance(rhs, ast.Call) else None
             one = guarded(g, dn, "N==1", "T") or guarded(g, dn, "N!=1", "F") or (dn is not r and (guarded(g, r, "N==1", "T") or guarded(g, r, "N!=1", "F")))
             many = guarded(g, dn, "N==1", "F") or guarded(g, dn, "N!=1", "T") or (dn is not r and (guarded(g, r, "N==1", "F") or guarded(g, r, "N!=1", "T")))
-            if cn == "CUQIarray" and one and any(k.arg == "geometry" and pn(k.value) == "self.geometry" for k in rhs.keywords):
+            gv = lambda e_, at=(dn if dn.kind != "return" else r): pn(ex.expand(e_, at))          # a local naming self.geometry is read through
+            if cn == "CUQIarray" and one and any(k.arg == "geometry" and gv(k.value) == "self.geometry" for k in rhs.keywords):
                 kinds.add("one")
-            elif cn == "Samples" and many and ((len(rhs.args) >= 2 and pn(rhs.args[1]) == "self.geometry") or any(k.arg == "geometry" and pn(k.value) == "self.geometry" for k in rhs.keywords)):
+            elif cn == "Samples" and many and ((len(rhs.args) >= 2 and gv(rhs.args[1]) == "self.geometry") or any(k.arg == "geometry" and gv(k.value) == "self.geometry" for k in rhs.keywords)):
                 kinds.add("many")
                 # several draws reach the collection exactly as _sample returned them ((dim, N), one draw per column): on every path the first argument
                 # is the value of the _sample call itself, not a re-oriented / re-shaped version of it
